@@ -549,11 +549,12 @@ impl<'a> Model<'a> {
             match flow {
                 Flow::Next => i += 1,
                 Flow::Goto(l) => {
-                    if top {
-                        if let Some(j) = Self::find_label(list, &l) {
-                            i = j;
-                            continue;
-                        }
+                    // the label may be in this very list (also inside a block: a jump
+                    // within a loop body); otherwise it is further out
+                    let _ = top;
+                    if let Some(j) = Self::find_label(list, &l) {
+                        i = j;
+                        continue;
                     }
                     return Ok(Flow::Goto(l));
                 }
